@@ -117,4 +117,11 @@ def modelPayload : Nat × Bool × Nat × List String :=
   let s := (runOp ⟨none, some 10, true⟩ 482 (.get "a" none) (probeSess [("a", .int 1)])).1
   (s.payload.accessed, s.payload.accInt, s.payload.created, s.payload.data.map (·.1))
 
+/-- the translator's payload-shape probe on the model: the session `__init__` builds at 1000.0 s from the deserialised
+value `v` under timeout `t` — `(0, 0, [])` = raises, else `(1 = new | 2 = not new, created, keys)` -/
+def modelShape (t : Option Nat) (v : JV) : Nat × Nat × List String :=
+  match load ⟨t, none, true⟩ 4000 (some (v.toWire digitStrNum)) with
+  | none => (0, 0, [])
+  | some s => (if s.new then 1 else 2, s.created, s.data.map (·.1))
+
 end Pyr.Session
